@@ -117,10 +117,38 @@ class Sem:
         self._label_memo[k] = (e, r)
         return r
 
+    def save_and_return(self):
+        """{fn path: cell}: workspace functions whose every Ok result is the very value they saved to a single-value cell (e.g. the
+        hub's resync): right after the call the function's result IS the stored value, so it is labelled like a load"""
+        if getattr(self, "_sar", None) is None:
+            self._sar = {}
+            w = self.w
+            for b in self.prog.fn_bodies():
+                if b.kind == "closure":
+                    continue
+                be = w.be(b)
+                ws = [(cell, w.ident(val, expand_ws=False)) for (bb, kind, cell, key, val, e) in self.storage_sites(be)
+                      if kind == "write" and key is None and cell is not None and val is not None]
+                if len(ws) != 1:
+                    continue
+                rets = [x for (bb, idx, kind, x) in self.ret_sites(be) if kind == "ok"]
+                if rets and all(x.op == "adt" and x.args and w.ident(x.args[0], expand_ws=False) == ws[0][1] for x in rets) and \
+                        not [1 for (bb, idx, kind, x) in self.ret_sites(be) if kind in ("call", "libcall", "unknown")]:
+                    self._sar[b.path] = ws[0][0]
+        return self._sar
+
     def _label(self, e, depth):
         if depth > 12:
             return None
         w = self.w
+        x0 = w.ident(e, expand_ws=False)
+        c0 = x0.args[0] if x0.op == "proj" and x0.info == "ok" else x0
+        if c0.op == "call" and w.callee_body(c0) is not None and c0.info in self.save_and_return():
+            return ("stored", self.save_and_return()[c0.info], None, ())
+        if x0.op == "field":
+            bl0 = self.label(x0.args[0], depth + 1)
+            if bl0 is not None and bl0[0] == "stored" and bl0[1] in self.save_and_return().values():
+                return bl0[:-1] + (bl0[-1] + (x0.info[0],),)
         e = w.ident(e)
         op = e.op
         if op == "field":
@@ -467,11 +495,19 @@ class Sem:
             return w.ident(mk_phi(alts))
         return None
 
-    def field_of(self, e, name):
-        return self.w.ident(simplify(E("field", (e,), (name, "", ""))))
+    def field_of(self, e, name, expand_ws=True):
+        return self.w.ident(simplify(E("field", (e,), (name, "", ""))), 0, expand_ws)
 
     def some_of(self, e):
         return self.w.ident(simplify(E("proj", (e,), "some")))
+
+    def labels(self, e):
+        """set of labels over the alternatives of e (workspace calls expanded); None stands for an unlabelled alternative"""
+        i = self.w.ident(e)
+        out = set()
+        for a in (i.args if i.op == "phi" else (i,)):
+            out.add(self.label(a))
+        return out
 
     def label_nd(self, e):
         """label ignoring default alternatives (DEFAULT / explicit zero of a missing entry)"""
